@@ -1,4 +1,4 @@
 SPECIFICATION MSpec
-CONSTANTS Issue = {1, 2}  Margin = 5  MaxEv = 110  Depth = 16
+CONSTANTS Issue = {1, 2}  Margin = 5  StopAtFirst = TRUE  MaxEv = 110  Depth = 16
 INVARIANT Emit
 CHECK_DEADLOCK FALSE
